@@ -116,7 +116,10 @@ class Optimizer:
                     expr = self._run_fixed_point(expr, step, rules, name, debug=debug)
                 else:
                     expr = self._run_once(expr, step, rules, name, debug=debug)
-                rules[name].expression = expr
+                # The rule object can be shared with the mapping this table was
+                # built from, and so with other parsers. Replace the entry of
+                # this table instead of rewriting the rule in place.
+                rules[name] = rule.with_children([expr])
 
         return rules
 
